@@ -4,6 +4,7 @@
 // const char*, char / string argument) all applicable ones are called; a disagreement is appended as
 // " !OVERLOAD:<which>".
 #include <cstdint>
+#include <sys/mman.h>
 #include <cstdio>
 #include <deque>
 #include <list>
@@ -181,10 +182,75 @@ template <typename F> static S guard(F f) {
     try { return f(); } catch (const std::exception&) { return "EXC"; }
 }
 
+// ---------------------------------------------------------------------------------------------------------
+// HUGE sizes: views of 2^31-1 .. 2^32+1 bytes over ONE sparse MAP_NORESERVE mapping of zero bytes; a few bytes at the
+// start (head) and at the end (tail) are written for the case and cleared afterwards.  Only helpers that touch O(1)
+// bytes at the ends are called (no scan, no allocation of the size of the view): any narrowing of a size / position /
+// size difference to int or 32 bits changes their answer.
+static const size_t HUGE_TOTAL = (size_t(1) << 32) + 65536;
+static char* huge_map() {
+    static char* m = [] {
+        void* p = mmap(nullptr, HUGE_TOTAL, PROT_READ | PROT_WRITE, MAP_PRIVATE | MAP_ANONYMOUS | MAP_NORESERVE, -1, 0);
+        return p == MAP_FAILED ? static_cast<char*>(nullptr) : static_cast<char*>(p);
+    }();
+    return m;
+}
+static S vdims(const char* base, tlx::string_view v) { return std::to_string(v.data() - base) + ":" + std::to_string(v.size()); }
+static S run_huge(std::istringstream& in) {
+    size_t n, padlen; S hh, ht, hm, hd; in >> n >> hh >> ht >> hm >> hd >> padlen;
+    S head = unhex(hh), tail = unhex(ht), m = unhex(hm), d = unhex(hd);
+    char* base = huge_map();
+    if (!base || n + 1 > HUGE_TOTAL || head.size() + tail.size() > n) return "unavailable";
+    memcpy(base, head.data(), head.size()); memcpy(base + n - tail.size(), tail.data(), tail.size());
+    std::ostringstream out;
+    {
+        tlx::string_view V(base, n), V1(base + 1, n - 1);
+        Exact xm(m), xd(d); tlx::string_view M = xm.view(), D = xd.view();
+        bool sw = tlx::starts_with(V, M), swi = tlx::starts_with_icase(V, M), ew = tlx::ends_with(V, M), ewi = tlx::ends_with_icase(V, M);
+        bool rsw = tlx::starts_with(M, V), rswi = tlx::starts_with_icase(M, V), rew = tlx::ends_with(M, V), rewi = tlx::ends_with_icase(M, V);
+        out << "sw=" << b2s(sw) << " swi=" << b2s(swi) << " ew=" << b2s(ew) << " ewi=" << b2s(ewi)
+            << " rsw=" << b2s(rsw) << " rswi=" << b2s(rswi) << " rew=" << b2s(rew) << " rewi=" << b2s(rewi);
+        int c1 = tlx::compare_icase(V, M), c2 = tlx::compare_icase(M, V), c3 = tlx::compare_icase(V, V1), c4 = tlx::compare_icase(V1, V);
+        bool e1 = tlx::equal_icase(V, M), e2 = tlx::equal_icase(M, V), e3 = tlx::equal_icase(V, V1);
+        bool l1 = tlx::less_icase(V, M), l2 = tlx::less_icase(M, V), l3 = tlx::less_icase(V, V1), l4 = tlx::less_icase(V1, V);
+        out << " cmp=" << c1 << " eq=" << b2s(e1) << " lt=" << b2s(l1) << " rcmp=" << c2 << " req=" << b2s(e2) << " rlt=" << b2s(l2)
+            << " scmp=" << c3 << "," << c4 << " seq=" << b2s(e3) << " slt=" << b2s(l3) << "," << b2s(l4);
+        tlx::string_view tl = tlx::trim_left(V, D), tr = tlx::trim_right(V, D), tt = tlx::trim(V, D);
+        out << " tl=" << vdims(base, tl) << " tr=" << vdims(base, tr) << " t=" << vdims(base, tt);
+        out << " pad=" << hex(tlx::pad(V, padlen, '.'));
+        // the other forms of the same functions
+        if (no_nul(m)) {
+            if (tlx::ends_with(V, m.c_str()) != ew || tlx::ends_with_icase(V, m.c_str()) != ewi) out << " !OVERLOAD:ends_with(string_view,const char*)";
+            if (tlx::ends_with(m.c_str(), V) != rew || tlx::ends_with_icase(m.c_str(), V) != rewi) out << " !OVERLOAD:ends_with(const char*,string_view)";
+            if (tlx::compare_icase(V, m.c_str()) != c1 || tlx::compare_icase(m.c_str(), V) != c2) out << " !OVERLOAD:compare_icase(const char*)";
+            if (tlx::equal_icase(m.c_str(), V) != e2 || tlx::equal_icase(V, m.c_str()) != e1) out << " !OVERLOAD:equal_icase(const char*)";
+            if (tlx::less_icase(V, m.c_str()) != l1 || tlx::less_icase(m.c_str(), V) != l2) out << " !OVERLOAD:less_icase(const char*)";
+        }
+        { tlx::string_view a = V, b = V, c = V; tlx::trim_left(&a, D); tlx::trim_right(&b, D); tlx::trim(&c, D);
+          if (vdims(base, a) != vdims(base, tl) || vdims(base, b) != vdims(base, tr) || vdims(base, c) != vdims(base, tt)) out << " !OVERLOAD:trim(string_view*)"; }
+        if (d.size() == 1) {
+            tlx::string_view a = V, b = V, c = V; tlx::trim_left(&a, d[0]); tlx::trim_right(&b, d[0]); tlx::trim(&c, d[0]);
+            if (vdims(base, a) != vdims(base, tl) || vdims(base, b) != vdims(base, tr) || vdims(base, c) != vdims(base, tt) ||
+                vdims(base, tlx::trim_left(V, d[0])) != vdims(base, tl) || vdims(base, tlx::trim_right(V, d[0])) != vdims(base, tr) || vdims(base, tlx::trim(V, d[0])) != vdims(base, tt))
+                out << " !OVERLOAD:trim(char)";
+        }
+        if (d == " \r\n\t") {
+            tlx::string_view a = V, b = V, c = V; tlx::trim_left(&a); tlx::trim_right(&b); tlx::trim(&c);
+            if (vdims(base, a) != vdims(base, tl) || vdims(base, b) != vdims(base, tr) || vdims(base, c) != vdims(base, tt) ||
+                vdims(base, tlx::trim_left(V)) != vdims(base, tl) || vdims(base, tlx::trim_right(V)) != vdims(base, tr) || vdims(base, tlx::trim(V)) != vdims(base, tt))
+                out << " !OVERLOAD:trim()";
+        }
+        if (tlx::pad(V, padlen) != tlx::pad(V, padlen, ' ')) out << " !OVERLOAD:pad(default pad_char)";
+    }
+    memset(base, 0, head.size()); memset(base + n - tail.size(), 0, tail.size());
+    return out.str();
+}
+
 static S run_case(const S& line) {
     std::istringstream in(line);
     S op; in >> op;
     std::ostringstream out, py;      // py: results judged by the Python side only (appended after " ## ")
+    if (op == "huge") return run_huge(in);
     if (op == "b64") {
         S hs; size_t lb; in >> hs >> lb; S s = unhex(hs); Exact xs(s);
         S e = tlx::base64_encode(xs.view(), lb);
